@@ -336,6 +336,118 @@ def check_init(chk, prog, f, owned):
                proof="assigned in init (or init delegates / zero-fills)")
 
 
+def _field_effects(prog, g, memo):
+    """(fields of param 0 that g overwrites, fields of param 0 that g releases) - own stores/releases and those of the callees
+    it hands param 0 to"""
+    if g.name in memo:
+        return memo[g.name]
+    memo[g.name] = (set(), set())
+    asg, rel = set(), set()
+    if g.body is None or not g.params:
+        return memo[g.name]
+    p0 = g.params[0]["d"]
+    for x in walk(g.body):
+        if x.get("k") == "assign" and x.get("op") == "=":
+            fld = self_field(x["ch"][0])
+            if fld is not None and X.strip(X.strip(x["ch"][0])["ch"][0]).get("d") == p0:
+                asg.add(fld)
+        if x.get("k") == "call":
+            rk = own.release_kind(x)
+            args = x["ch"][1:]
+            if rk in ("free", "del") and args:
+                a = args[-1] if X.callee_name(x) == "spifmem_free" else args[0]
+                fld = self_field(a)
+                if fld is not None:
+                    rel.add(fld)
+            h = prog.fn(X.callee_name(x) or "")
+            if h is not None and args and X.strip(args[0]).get("d") == p0 and h is not g:
+                a2, r2 = _field_effects(prog, h, memo)
+                asg |= a2
+                rel |= r2
+    memo[g.name] = (asg, rel)
+    return memo[g.name]
+
+
+def check_field_overwrite(chk, prog, f, memo):
+    """O11: a field of the object into which this function has stored a fresh allocation is not overwritten - by an assignment or
+    by a callee that re-initialises the object without releasing (init instead of done) - while it still holds that allocation.
+    May-dataflow of "self->F holds a block allocated on this path"."""
+    if f.body is None or f.cfg is None or not f.params or not f.params[0].get("tp"):
+        return 0
+    p0 = f.params[0]["d"]
+
+    def own_fld(e):
+        fld = self_field(e)
+        if fld is None:
+            return None
+        b = X.strip(X.strip(e)["ch"][0])
+        return fld if b.get("d") == p0 else None
+    if not any(x.get("k") == "assign" and own_fld(x["ch"][0]) is not None and X.strip(x["ch"][1]).get("k") == "call"
+               and nullness.fresh_call(X.strip(x["ch"][1])) for x in walk(f.body)):
+        return 0
+    cfg = nullness.prepared_cfg(f, NORETURN)
+    bad = []
+
+    def mentions(e, fld):
+        return any(own_fld(y) == fld for y in walk(e) if y.get("k") == "member")
+
+    def transfer(st, n, blk):
+        k = n.get("k")
+        if k == "assign" and n.get("op") == "=":
+            fld = own_fld(n["ch"][0])
+            if fld is not None:
+                r = X.strip(n["ch"][1])
+                if mentions(n["ch"][1], fld):
+                    return st                      # self->f = REALLOC(self->f, ..): the same block, moved
+                st = st - {fld}
+                if r.get("k") == "call" and nullness.fresh_call(r):
+                    st = st | {fld}
+                return st
+        if k == "call":
+            rk = own.release_kind(n)
+            args = n["ch"][1:]
+            if rk in ("free", "del") and args:
+                a = args[-1] if X.callee_name(n) == "spifmem_free" else args[0]
+                fld = own_fld(a)
+                if fld is not None:
+                    return st - {fld}
+            h = prog.fn(X.callee_name(n) or "")
+            if h is not None and args and X.strip(args[0]).get("d") == p0:
+                asg, rel = _field_effects(prog, h, memo)
+                return st - rel - asg
+        return st
+
+    def visit(st, n, blk):
+        k = n.get("k")
+        if k == "assign" and n.get("op") == "=":
+            fld = own_fld(n["ch"][0])
+            if fld is not None and fld in st and not mentions(n["ch"][1], fld):
+                bad.append((n, fld, None))
+        if k == "call":
+            h = prog.fn(X.callee_name(n) or "")
+            args = n["ch"][1:]
+            if h is not None and args and X.strip(args[0]).get("d") == p0:
+                asg, rel = _field_effects(prog, h, memo)
+                for fld in sorted((asg - rel) & set(st)):
+                    bad.append((n, fld, h.name))
+    def refine(st, cond, truth, blk):
+        # on a branch where the field is known to be NULL it holds nothing
+        for fact in X.implied(cond, truth):
+            if fact[0] == "null" and isinstance(fact[1], str) and fact[1].startswith("d%d->" % p0):
+                st = st - {fact[1].split("->", 1)[1]}
+        return st
+    flow.forward(cfg, frozenset(), transfer, refine=refine, join=lambda a, b: a | b, visit=visit)
+    flds = sorted({own_fld(x["ch"][0]) for x in walk(f.body) if x.get("k") == "assign" and own_fld(x["ch"][0]) is not None
+                   and X.strip(x["ch"][1]).get("k") == "call" and nullness.fresh_call(X.strip(x["ch"][1]))})
+    for fld in flds:
+        b_ = [x for x in bad if x[1] == fld]
+        chk.ob("O11", f.name, "held-field-overwritten:" + fld, not b_, loc=f.loc(b_[0][0]) if b_ else f.loc(f.body),
+               detail="%s stores a fresh allocation into self->%s and then %s while the field still holds it: the block is leaked" % (
+                   f.name, fld, ("calls %s(self), which overwrites the field without releasing it" % b_[0][2]) if b_ and b_[0][2] else "overwrites the field"),
+               proof="every overwrite of self->%s after the allocation is preceded by its release (or is the reallocation of the same block)" % fld)
+    return len(flds)
+
+
 def run(tier="quick"):
     chk = Check("C06", level="other", tier=tier,
                 explanation="OWN: release typestate of every class's done/del, ownership transfer on remove, local leak and "
@@ -343,7 +455,8 @@ def run(tier="quick"):
     for rid, txt in (("O1", "done leaves every released field NULL"), ("O2", "done releases every field a method allocates into"),
                      ("O3", "del = done then dealloc"), ("O5", "remove clears the node's data before deleting the node"),
                      ("O6", "no local allocation leaks on any path"), ("O7", "no use after release"),
-                     ("O8", "object setters delete the previous object"), ("O9", "init assigns every field done releases"), ("O10", "a struct-copied duplicate shares no pointer field with its original")):
+                     ("O8", "object setters delete the previous object"), ("O9", "init assigns every field done releases"), ("O10", "a struct-copied duplicate shares no pointer field with its original"),
+                     ("O11", "a field holding a block this function allocated is released before it is overwritten")):
         chk.rule(rid, txt)
     prog = facts.extract()
     dones = [f for f in classinfo.functions_in_slot(prog, "done") if f.unit.name in FILES]
@@ -434,6 +547,13 @@ def run(tier="quick"):
                    detail="%s uses %s after it was released at %s" % (f.name, X.render(u)[:50], f.loc(r) if r else "?"))
         if not uaf:
             chk.ob("O7", f.name, "use-after-release", True, loc=f.loc(f.body), proof="no use of a must-released path")
+    # O11 a field holding a block allocated by this function is not overwritten before it is released
+    memo11 = {}
+    n11 = 0
+    for f in prog.all_functions():
+        if f.unit.name in FILES and f.cfg is not None:
+            n11 += check_field_overwrite(chk, prog, f, memo11)
+    chk.count("fields_allocated_into", n11, floor=20)
     # O8
     n8 = 0
     for f in prog.all_functions():
